@@ -155,8 +155,10 @@ def run(ck):
     ok = any(isinstance(n, ast.Return) and norm(n.value).replace("m2_expr.", "") == "ExprAssign(self.expr, ExprInt(0, self.expr.size))" for n in walk_body(zf))
     ck.ob("R2", "%s.to_constraint" % zero_cls, ok, m.where(zf), "the == 0 constraint must be `expr = 0`")
     nf = m.func("%s.to_constraint" % nonzero_cls)
-    t = norm(ast.Module(body=nf.body, type_ignores=[])).replace("m2_expr.", "")
-    ok = "cst1, cst2 = (ExprInt(0, 1), ExprInt(1, 1))" in t and "ExprAssign(cst1, ExprCond(self.expr, cst1, cst2))" in t
+    from sa.astutil import Resolver as _Res
+    _rs = _Res(nf)
+    ok = any(isinstance(n, ast.Return) and n.value is not None and
+             _rs.expand(n.value).replace("m2_expr.", "") == "ExprAssign(ExprInt(0, 1), ExprCond(self.expr, ExprInt(0, 1), ExprInt(1, 1)))" for n in walk_body(nf))
     ck.ob("R2", "%s.to_constraint" % nonzero_cls, ok, m.where(nf), "the != 0 constraint must be `0 = (expr ? 0 : 1)` on one bit")
 
     # ---------------------------------------------------------------- R3
